@@ -28,7 +28,9 @@ package main
 //     quote, an unterminated quote, quoted text whose braces do not balance,
 //   * a statement with a single argument that is quoted or is itself a
 //     statement, a quoted or braced function name,
-//   * +5 / more than 9 digits as "integer", white space other than space, tab,
+//   * +5 / more than 9 digits as "integer" (whether it is the group or the key
+//     look-up; that it is one of the two, with exactly that number / that name,
+//     is demanded by part I in inttok.go), white space other than space, tab,
 //     CR, LF.
 // UNSPEC dominates MUSTERR dominates VALUE when parts are combined.
 
